@@ -183,10 +183,11 @@ Lemma sv_propagate_task fuel : forall s t, same_view s (propagate_task fuel s t)
 Proof.
   induction fuel as [|fuel IH]; intros s t; cbn [propagate_task].
   - destruct (negb (is_prio_task s t)); [apply sv_refl|].
-    destruct (task_is_runnable s t); [constructor; reflexivity|].
-    destruct (twaiting (gett s t)); apply sv_refl.
+    destruct (task_is_runnable s t); destruct (twaiting (gett _ t)); try apply sv_refl; constructor; reflexivity.
   - destruct (negb (is_prio_task s t)); [apply sv_refl|].
-    destruct (task_is_runnable s t); [constructor; reflexivity|].
+    set (s0 := if task_is_runnable s t then task_reschedule s t else s).
+    assert (E0 : same_view s s0) by (unfold s0; destruct (task_is_runnable s t); [constructor; reflexivity|apply sv_refl]).
+    clearbody s0. eapply sv_trans; [exact E0|]. clear E0 s. rename s0 into s.
     destruct (twaiting (gett s t)) as [l|]; [|apply sv_refl].
     set (s1 := match lowner (getl s l) with Some o => propagate_task fuel s o | None => s end).
     assert (E1 : same_view s s1) by (unfold s1; destruct (lowner (getl s l)); [apply IH|apply sv_refl]).
@@ -198,10 +199,11 @@ Lemma propagate_task_conds fuel : forall s t, conds (propagate_task fuel s t) = 
 Proof.
   induction fuel as [|fuel IH]; intros s t; cbn [propagate_task].
   - destruct (negb (is_prio_task s t)); [reflexivity|].
-    destruct (task_is_runnable s t); [reflexivity|].
-    destruct (twaiting (gett s t)); reflexivity.
+    destruct (task_is_runnable s t); destruct (twaiting (gett _ t)); reflexivity.
   - destruct (negb (is_prio_task s t)); [reflexivity|].
-    destruct (task_is_runnable s t); [reflexivity|].
+    set (s0 := if task_is_runnable s t then task_reschedule s t else s).
+    assert (E0 : conds s0 = conds s) by (unfold s0; destruct (task_is_runnable s t); reflexivity).
+    clearbody s0. rewrite <- E0. clear E0 s. rename s0 into s.
     destruct (twaiting (gett s t)) as [l|]; [|reflexivity].
     set (s1 := match lowner (getl s l) with Some o => propagate_task fuel s o | None => s end).
     assert (E1 : conds s1 = conds s) by (unfold s1; destruct (lowner (getl s l)); [apply IH|reflexivity]).
@@ -212,10 +214,11 @@ Lemma propagate_task_futs fuel : forall s t, futs (propagate_task fuel s t) = fu
 Proof.
   induction fuel as [|fuel IH]; intros s t; cbn [propagate_task].
   - destruct (negb (is_prio_task s t)); [reflexivity|].
-    destruct (task_is_runnable s t); [reflexivity|].
-    destruct (twaiting (gett s t)); reflexivity.
+    destruct (task_is_runnable s t); destruct (twaiting (gett _ t)); reflexivity.
   - destruct (negb (is_prio_task s t)); [reflexivity|].
-    destruct (task_is_runnable s t); [reflexivity|].
+    set (s0 := if task_is_runnable s t then task_reschedule s t else s).
+    assert (E0 : futs s0 = futs s) by (unfold s0; destruct (task_is_runnable s t); reflexivity).
+    clearbody s0. rewrite <- E0. clear E0 s. rename s0 into s.
     destruct (twaiting (gett s t)) as [l|]; [|reflexivity].
     set (s1 := match lowner (getl s l) with Some o => propagate_task fuel s o | None => s end).
     assert (E1 : futs s1 = futs s) by (unfold s1; destruct (lowner (getl s l)); [apply IH|reflexivity]).
